@@ -34,8 +34,11 @@ class Expiration(Stream):
     rule = ("seeded histories on a real Core + ExpirationManager: reg / tokcreate / rootcreate / renew / tokrenew (increments "
             "0 .. beyond every maximum) / revoke sync and lazy (= forced expiry through the timer and the revocation job) / "
             "tokrevoke (cascade) / age (time passing) / setfail (backend revoke fails transiently, always, unrecoverably) / "
-            "freeze (lost timers) / restart (Stop+setupExpiration, or a new core on a snapshot), observed at quiescence: "
-            "stored vs pending / irrevocable / nonexpiring sets, backend revocations and call counts; plus crash points of "
+            "freeze (lost timers) / restart (Stop+setupExpiration, or a new core on a snapshot); namespace histories: two sealable "
+            "namespaces with leases, seal / unseal, and unseals whose lease restore is held in flight (restore shard lock) while "
+            "leases of other namespaces are renewed / revoked; observed at quiescence: "
+            "stored vs pending / irrevocable / nonexpiring sets per unsealed namespace, restoreLoaded marks, restore-mode counter, "
+            "backend revocations and call counts; plus crash points of "
             "a sync renew / revoke / register (snapshot after every write, new core, stored vs tracked); non-trivial = the "
             "op succeeded; distinct = distinct op line")
 
@@ -58,10 +61,12 @@ class Expiration(Stream):
         o = _obs(impl)
         if "st" not in o:
             return None
-        stored = _set(o["st"])
+        # leases of sealed namespaces, and the one lease whose namespace restore the harness holds in flight, are
+        # legitimately untracked; every other stored lease (= every lease of an unsealed namespace) must be tracked
+        stored = _set(o["st"]) - _set(o.get("nsl")) - _set(o.get("held"))
         tracked = _set(o.get("pend")) | _set(o.get("irr")) | _set(o.get("non"))
         if stored - tracked:
-            return {"what": "lease(s) %s in storage but not tracked for expiry" % sorted(stored - tracked),
+            return {"what": "lease(s) %s of an unsealed namespace in storage but not tracked for expiry" % sorted(stored - tracked),
                     "signature": "C05b:stored-not-tracked"}
         if tracked - stored:
             return {"what": "lease(s) %s tracked but not in storage" % sorted(tracked - stored),
